@@ -1289,6 +1289,11 @@ static Plan gen_mpi(Rng& r, int tier, std::string const& focus)
         p.rorder = 0;
         p.aux[0] = 1 + r.below(p.calls.size() - 1);
         p.aux[1] = p.P;
+        // an iteration with fewer calls than ranks before the stop (ranks with an empty share must
+        // stay in step with the stream), iterations that engage every rank after it
+        if (p.P >= 3 && r.chance(0.6)) p.calls[r.below(p.aux[0])] = r.below(p.P - 1);
+        p.calls.back() = std::max<u64>(p.calls.back(), 2 * p.P + r.below(50));
+        if (p.cbk == 0) for (auto& c : p.calls) c = std::max<u64>(c, 2);
     }
     else if (p.calls.size() >= 2 && r.chance(0.25))
     {
@@ -1330,8 +1335,10 @@ static Plan gen_mpi(Rng& r, int tier, std::string const& focus)
 }
 
 // one MPI segment (a run of the mpi_* integrator on the session's checkpoint) with all C04 / C16 oracles
-static bool mpi_segment(Plan const& p, Session& s, std::vector<u64> const& seg_calls, u64 P, RunCtl ctl, Report& rep)
+static bool mpi_segment(Plan const& p, Session& s, std::vector<u64> const& seg_calls, u64 P, RunCtl ctl, Report& rep,
+    bool* completed = nullptr)
 {
+    if (completed != nullptr) *completed = false;
     std::string const key = fmt("%s %s %s", integ_name(p.integ), nt_name(p.nt), engine_name(p.eng));
     ld const eps = eps_of(p.nt);
     ctl.P = P;
@@ -1350,6 +1357,7 @@ static bool mpi_segment(Plan const& p, Session& s, std::vector<u64> const& seg_c
         return false;
     }
     if (o.hang || o.killed) return false;   // hang already reported by the session
+    if (completed != nullptr) *completed = true;
 
     ChkptView const v = s.w->view();
     UsageInfo const ui = s.w->usage();
@@ -1687,12 +1695,17 @@ static void exec_mpi(Plan const& p, Report& rep)
             if (!ro.threw && !ro.killed && !ro.hang && ro.results == p.calls.size()) uninterrupted = ref.w->text();
         }
 
-        if (!mpi_segment(p, s, first, P, ctl, rep)) return;
+        // the comparison with the job that never stopped is made whenever the runs completed, whatever
+        // the per-iteration oracles of other properties said about them
+        bool done1 = false, done2 = false;
+        bool const ok1 = mpi_segment(p, s, first, P, ctl, rep, &done1);
+        if (!done1 || (!ok1 && uninterrupted.empty())) return;
         if (s.w->nresults() != split) return;   // early stop
-        if (!s.reload("mpi restart")) return;
+        if (!s.reload("mpi restart") && !s.reload_usable) return;
         rep.faults["mpi-restart-other-world-size"] += (p.aux[1] != P);
         ctl.sseed = mix2(ctl.sseed, 7);
-        if (!mpi_segment(p, s, second, std::max<u64>(1, p.aux[1]), ctl, rep)) return;
+        bool const ok2 = mpi_segment(p, s, second, std::max<u64>(1, p.aux[1]), ctl, rep, &done2);
+        if (!done2 || (!ok2 && uninterrupted.empty())) return;
         if (!uninterrupted.empty())
         {
             rep.probes["mpi-restart-vs-uninterrupted"]++;
